@@ -1,6 +1,7 @@
 (** C03: access lists.  Only statements here; proofs live in Proofs/Access.v. *)
 From Coq Require Import List NArith Bool.
 From AGH Require Import Base.Run Base.NetAddr Base.RuleEngine Model.Access Proofs.Access.
+From AGH Require Base.Dom Model.ClientID Proofs.ClientID.
 Import ListNotations.
 Local Open Scope N_scope.
 
@@ -76,3 +77,193 @@ Example C03_blocked_request_satisfiable :
   ~ blocked_request (new_access [] [] [ex_host_rule]) (Some ex_ip) []
     (Some ([120;46;116;101;115;116;46], 1)).
 Proof. exact blocked_request_satisfiable. Qed.
+
+(** * HandleBefore with the ClientID extraction of C16 in front and the
+      ClientID cache as state (round 2) *)
+
+(** What the pre-request hook returns, for every context: a failed ClientID
+    extraction (possible over DoT / DoH / DoQ only) is answered SERVFAIL
+    before the lists are consulted; otherwise an excluded client or blocked
+    name gets the protocol's refusal and everything else is let through with
+    its ClientID. *)
+Theorem C03_handle_before_spec : forall a t x,
+  match extract_clientid t x with
+  | None => handle_before_ctx a t x = BServfail /\ secure_proto (cx_proto x)
+  | Some id =>
+      (blocked_request a (cx_ip x) id (cx_q x) /\ handle_before_ctx a t x = pre_blocked (cx_proto x)) \/
+      (~ blocked_request a (cx_ip x) id (cx_q x) /\
+       handle_before_ctx a t x = BContinue (match id with nil => None | _ => Some id end))
+  end.
+Proof. exact handle_before_ctx_spec. Qed.
+Print Assumptions C03_handle_before_spec.
+
+(** The cache is written exactly when the request is let through with a
+    non-empty ClientID ... *)
+Theorem C03_cache_written_iff_admitted_with_clientid : forall cap a t x c,
+  fst (before_step cap a t x c) =
+  match handle_before_ctx a t x with
+  | BContinue (Some id) => cache_set cap c (cx_rid x) id
+  | _ => c
+  end.
+Proof. exact before_step_cache. Qed.
+Print Assumptions C03_cache_written_iff_admitted_with_clientid.
+
+(** ... so a dropped, refused or SERVFAILed request leaves it unchanged. *)
+Theorem C03_not_admitted_cache_unchanged : forall cap a t x c,
+  ~ let_through (snd (before_step cap a t x c)) -> fst (before_step cap a t x c) = c.
+Proof. exact not_let_through_cache_unchanged. Qed.
+Print Assumptions C03_not_admitted_cache_unchanged.
+
+(** An excluded client (by address, or by the ClientID extracted from the DoH
+    path / DoT / DoQ / DoH server name) or a blocked name: the handler does
+    not run, cache unchanged, no reply over UDP / DNSCrypt, REFUSED
+    elsewhere. *)
+Theorem C03_blocked_ctx_not_served :
+  forall (S Req Resp : Type) (handler : S -> bytes -> Req -> S * Resp) cap a t x id c st rq,
+  extract_clientid t x = Some id ->
+  blocked_request a (cx_ip x) id (cx_q x) ->
+  serve_ctx handler cap a t x c st rq = (st, c, expected_refusal (cx_proto x)).
+Proof. exact @blocked_ctx_not_served. Qed.
+Print Assumptions C03_blocked_ctx_not_served.
+
+(** A ClientID that cannot be extracted: SERVFAIL whatever the lists say
+    (also when they exclude the address: SERVFAIL, not REFUSED), nothing
+    runs, cache unchanged; only over DoT / DoH / DoQ. *)
+Theorem C03_extraction_error_not_served :
+  forall (S Req Resp : Type) (handler : S -> bytes -> Req -> S * Resp) cap a t x c st rq,
+  extract_clientid t x = None ->
+  serve_ctx handler cap a t x c st rq = (st, c, Servfail) /\ secure_proto (cx_proto x).
+Proof. exact @extraction_error_not_served. Qed.
+Print Assumptions C03_extraction_error_not_served.
+
+(** Every other request is served and the handler is given exactly the
+    extracted ClientID (processInitial reads back what the hook wrote under
+    the request id; for a request without ClientID provided no entry carries
+    its id). *)
+Theorem C03_admitted_ctx_served :
+  forall (S Req Resp : Type) (handler : S -> bytes -> Req -> S * Resp) cap a t x id c st rq,
+  extract_clientid t x = Some id ->
+  ~ blocked_request a (cx_ip x) id (cx_q x) ->
+  (id = nil -> cache_find (cx_rid x) c = None) ->
+  exists c',
+    serve_ctx handler cap a t x c st rq =
+      (fst (handler st id rq), c', Answer (snd (handler st id rq))) /\
+    (id = nil -> c' = c) /\
+    (id <> nil -> cache_find (cx_rid x) c' = Some id).
+Proof. exact @admitted_ctx_served. Qed.
+Print Assumptions C03_admitted_ctx_served.
+
+(** Between the hook and processInitial other requests may run their hooks
+    and reads: fewer than [cap] of them (any number if the cache is
+    unbounded) never make the request lose its ClientID. *)
+Theorem C03_clientid_survives_interleaving : forall cap a t x id c ops,
+  handle_before_ctx a t x = BContinue (Some id) ->
+  Forall (fun o => hop_rid o <> cx_rid x) ops ->
+  (cap = 0 \/ N.of_nat (length ops) < cap) ->
+  snd (initial_read (fst (run_hist cap a t (fst (before_step cap a t x c)) ops)) (cx_rid x)) = id.
+Proof. exact clientid_survives_interleaving. Qed.
+Print Assumptions C03_clientid_survives_interleaving.
+
+(** A disallowed ClientID in the DoH path, in any letter case: REFUSED. *)
+Theorem C03_disallowed_clientid_doh_path_refused :
+  forall blocked hosts t sni r ip q rid l c0,
+  Proofs.ClientID.path_id (Model.ClientID.d_path r) l -> Base.Dom.valid_label l ->
+  In (ECid c0) blocked -> lower c0 = lower l ->
+  handle_before_ctx (new_access [] blocked hosts) t (mkCtx PHTTPS sni (Some r) ip q rid) = BRefused.
+Proof. exact disallowed_clientid_doh_path_refused. Qed.
+Print Assumptions C03_disallowed_clientid_doh_path_refused.
+
+(** A disallowed ClientID as the label in front of the configured server
+    name (DoT / DoQ connection; DoH to /dns-query through TLS server name or
+    Host header), in any letter case: REFUSED. *)
+Theorem C03_disallowed_clientid_server_name_refused :
+  forall blocked hosts t x cli l c0,
+  Proofs.ClientID.reaches_sni (cid_proto (cx_proto x)) (cx_http x) -> tc_server_name t <> [] ->
+  Model.ClientID.server_name_of (cid_proto (cx_proto x)) (cx_sni x) (cx_http x) = inr cli ->
+  Proofs.ClientID.immediate_sub cli (tc_server_name t) l -> Base.Dom.valid_label l ->
+  In (ECid c0) blocked -> lower c0 = lower l ->
+  handle_before_ctx (new_access [] blocked hosts) t x = BRefused.
+Proof. exact disallowed_clientid_server_name_refused. Qed.
+Print Assumptions C03_disallowed_clientid_server_name_refused.
+
+(** Allow-list mode: a listed ClientID, presented in any letter case, admits
+    the request from any address unless the name is blocked. *)
+Theorem C03_allowed_clientid_admitted : forall allowed blocked hosts t x ip l c0,
+  extract_clientid t x = Some (lower l) -> Base.Dom.valid_label l ->
+  In (ECid c0) allowed -> lower c0 = lower l -> cx_ip x = Some ip ->
+  (forall name qt, cx_q x = Some (name, qt) ->
+     is_blocked_host (new_access allowed blocked hosts) (normalize_domain name) qt = false) ->
+  handle_before_ctx (new_access allowed blocked hosts) t x = BContinue (Some (lower l)).
+Proof. exact allowed_clientid_admitted. Qed.
+Print Assumptions C03_allowed_clientid_admitted.
+
+(** An invalid ClientID is answered SERVFAIL before the lists are consulted. *)
+Theorem C03_invalid_clientid_servfail : forall a t sni r ip q rid l,
+  Proofs.ClientID.path_id (Model.ClientID.d_path r) l -> ~ Base.Dom.valid_label l ->
+  handle_before_ctx a t (mkCtx PHTTPS sni (Some r) ip q rid) = BServfail.
+Proof. exact invalid_clientid_servfail. Qed.
+Print Assumptions C03_invalid_clientid_servfail.
+
+Theorem C03_invalid_server_name_servfail : forall a t x cli l,
+  Proofs.ClientID.reaches_sni (cid_proto (cx_proto x)) (cx_http x) -> tc_server_name t <> [] ->
+  Model.ClientID.server_name_of (cid_proto (cx_proto x)) (cx_sni x) (cx_http x) = inr cli ->
+  Proofs.ClientID.immediate_sub cli (tc_server_name t) l -> ~ Base.Dom.valid_label l ->
+  handle_before_ctx a t x = BServfail.
+Proof. exact invalid_server_name_servfail. Qed.
+Print Assumptions C03_invalid_server_name_servfail.
+
+(** Plain DNS and DNSCrypt requests are decided as requests without
+    ClientID, whatever else the context carries. *)
+Theorem C03_plain_protocol_decision : forall a t x,
+  ~ secure_proto (cx_proto x) ->
+  handle_before_ctx a t x = handle_before a (cx_proto x) (Some []) (cx_ip x) (cx_q x).
+Proof. exact plain_protocol_decision. Qed.
+Print Assumptions C03_plain_protocol_decision.
+
+(** Non-vacuity of the new premises. *)
+Example C03_disallowed_doh_path_satisfiable :
+  Proofs.ClientID.path_id (Model.ClientID.d_path ex_doh) [75;105;68] /\ Base.Dom.valid_label [75;105;68] /\
+  In (ECid ex_kid) [ECid ex_kid] /\ lower ex_kid = lower [75;105;68].
+Proof. exact disallowed_doh_path_satisfiable. Qed.
+
+Example C03_disallowed_server_name_satisfiable :
+  Proofs.ClientID.reaches_sni (cid_proto (cx_proto (ex_dot_ctx ex_sni 7))) (cx_http (ex_dot_ctx ex_sni 7)) /\
+  tc_server_name ex_tls <> [] /\
+  Model.ClientID.server_name_of (cid_proto PTLS) (Some ex_sni) None = inr ex_sni /\
+  Proofs.ClientID.immediate_sub ex_sni (tc_server_name ex_tls) [75;105;68] /\
+  handle_before_ctx (new_access [] [ECid ex_kid] []) ex_tls (ex_dot_ctx ex_sni 7) = BRefused /\
+  handle_before_ctx (new_access [] [ECid ex_kid] []) ex_tls
+    (mkCtx PHTTPS None (Some ex_doh) (Some ex_ip) None 8) = BRefused.
+Proof. exact disallowed_server_name_satisfiable. Qed.
+
+Example C03_allowed_clientid_satisfiable :
+  extract_clientid ex_tls (ex_dot_ctx ex_sni 7) = Some (lower [75;105;68]) /\
+  handle_before_ctx (new_access [ECid ex_kid] [EIP ex_ip] []) ex_tls (ex_dot_ctx ex_sni 7) =
+    BContinue (Some [107;105;100]).
+Proof. exact allowed_clientid_satisfiable. Qed.
+
+Example C03_invalid_clientid_satisfiable :
+  Proofs.ClientID.immediate_sub ex_bad_sni ex_srv [98;95;100] /\ ~ Base.Dom.valid_label [98;95;100] /\
+  extract_clientid ex_tls (ex_dot_ctx ex_bad_sni 7) = None /\
+  handle_before_ctx (new_access [] [EIP ex_ip] []) ex_tls (ex_dot_ctx ex_bad_sni 7) = BServfail.
+Proof. exact invalid_clientid_satisfiable. Qed.
+
+Example C03_blocked_ctx_satisfiable :
+  extract_clientid ex_tls (ex_dot_ctx ex_sni 7) = Some [107;105;100] /\
+  blocked_request (new_access [] [ECid ex_kid] []) (Some ex_ip) [107;105;100] None /\
+  ~ blocked_request (new_access [] [ECid ex_cid] []) (Some ex_ip) [107;105;100] None.
+Proof. exact blocked_ctx_satisfiable. Qed.
+
+(** The window of C03_clientid_survives_interleaving is tight: with a cache
+    of two entries, two interleaved admitted requests with ClientIDs make the
+    first request lose its ClientID; with three entries they do not. *)
+Example C03_interleaving_window_tight :
+  let a := new_access [] [] [] in
+  let x := ex_dot_ctx ex_sni 1 in
+  let ops := [HBefore (ex_dot_ctx ex_sni 2); HBefore (ex_dot_ctx ex_sni 3)] in
+  handle_before_ctx a ex_tls x = BContinue (Some [107;105;100]) /\
+  Forall (fun o => hop_rid o <> cx_rid x) ops /\
+  N.of_nat (length ops) = 2 /\
+  snd (initial_read (fst (run_hist 2 a ex_tls (fst (before_step 2 a ex_tls x [])) ops)) (cx_rid x)) = [] /\
+  snd (initial_read (fst (run_hist 3 a ex_tls (fst (before_step 3 a ex_tls x [])) ops)) (cx_rid x)) = [107;105;100].
+Proof. exact interleaving_window_tight. Qed.
